@@ -440,6 +440,7 @@ func (w *World) applyVoting(tx *ctypes.Trx) {
 		w.fail("C15", "vote by %x accepted, not in the proposal's recorded voters", tx.From)
 		return
 	}
+	hadLead := leadingOption(pr) >= 0
 	if v.Choice >= 0 {
 		pr.Votes[v.Choice] -= v.Power
 		w.Feat["revote"]++
@@ -447,6 +448,15 @@ func (w *World) applyVoting(tx *ctypes.Trx) {
 	v.Choice = pl.Choice
 	pr.Votes[v.Choice] += v.Power
 	w.Feat["ok_vote"]++
+	if hadLead && leadingOption(pr) < 0 {
+		w.Feat["revote_took_majority_away"]++
+	}
+	for _, x := range pr.Votes {
+		if x == pr.Majority && pr.Total > 0 {
+			w.Feat["tally_exactly_at_majority"]++
+			break
+		}
+	}
 }
 
 func (w *World) applyContract(tx *ctypes.Trx, hash []byte, res TxResult) {
